@@ -470,7 +470,7 @@ fn small_job<K: Kmer + Send + Sync + 'static>(name: &'static str, q: u32, t: u32
 #[cfg(not(fuzzing))]
 pub fn jobs(env: &Env) -> Vec<Box<dyn Job>> {
     let mut out: Vec<Box<dyn Job>> = vec![
-        big_job::<T32>("T32", env.pick(100_000, 200_000)),
+        big_job::<T32>("T32", env.pick(150_000, 600_000)),
         big_job::<T16>("T16", env.pick(30_000, 100_000)),
         big_job::<T32>("T32", 3_000),
     ];
